@@ -411,14 +411,34 @@ def _site_type_arg(b, site):
     return a[0] if a else None
 
 
-def _eval_offset(b, e, S, A, seen):
+_OFFSET_CTX = [None]
+
+
+def _eval_offset(b, e, S, A, seen, env=None, depth=0):
     """Value of a byte-offset expression in a 16-bit wrapping model of usize where the size of the type whose size is asked is
     S and the alignment of the type whose alignment is asked is A; `seen` collects ("size"|"align", type)."""
     M = 0xFFFF
     e = strip_refs(e)
 
+    ctx = _OFFSET_CTX[0]
+    if depth > 6:
+        raise _NoOffsetModel("depth")
+
     def ev(x):
-        return _eval_offset(b, x, S, A, seen)
+        return _eval_offset(b, x, S, A, seen, env, depth)
+    if e[0] == "param":
+        if env is not None and e[1] in env:
+            return env[e[1]]
+        raise _NoOffsetModel("parameter")
+    if e[0] == "const" and ctx is not None and len(e) > 3 and e[3] in ctx.facts.bodies:
+        # a named constant / promoted: what its initialiser computes
+        cb = ctx.facts.bodies[e[3]]
+        return _eval_offset(cb, strip_refs(ctx.flow(cb).local_expr(0)), S, A, seen, None, depth + 1)
+    if e[0] == "call" and ctx is not None and (e[1] or "") in ctx.facts.bodies and not re.search(r"^core::|^alloc::", e[1]):
+        # a (const) helper of the crate: its result for these argument values
+        cb = ctx.facts.bodies[e[1]]
+        vals = {i + 1: ev(a_) for i, a_ in enumerate(e[2])}
+        return _eval_offset(cb, strip_refs(ctx.flow(cb).local_expr(0)), S, A, seen, vals, depth + 1)
     if e[0] == "proj" and e[2] == (".0",) and e[1][0] == "binop" and e[1][1].endswith("WithOverflow"):
         e = ("binop", e[1][1].replace("WithOverflow", ""), e[1][2], e[1][3])
     if e[0] == "proj" and e[2] in (("@Some", ".0"), ("@Ok", ".0")) and e[1][0] == "call" and re.search(r"::checked_(add|sub|mul)$", e[1][1] or ""):
@@ -442,9 +462,18 @@ def _eval_offset(b, e, S, A, seen):
             return A
         if re.search(r"core::alloc::Layout::(size|align)$", nm) and e[2]:
             l_ = strip_refs(e[2][0])
+            while l_[0] == "proj" and l_[2] == ("*",):
+                l_ = strip_refs(l_[1])
+            lb = b
+            if l_[0] == "const" and ctx is not None:
+                # `Layout::new::<T>()` promoted to a constant / kept in a named constant
+                nm_ = l_[3] if len(l_) > 3 else re.sub(r"::promoted\[(\d+)\]$", r"::{promoted#\1}", str(l_[2]))
+                if nm_ in ctx.facts.bodies:
+                    lb = ctx.facts.bodies[nm_]
+                    l_ = strip_refs(ctx.flow(lb).local_expr(0))
             if l_[0] == "call" and re.search(r"core::alloc::Layout::new$", l_[1] or ""):
                 kind = "size" if nm.endswith("size") else "align"
-                seen.add((kind, _site_type_arg(b, l_[3])))
+                seen.add((kind, _site_type_arg(lb, l_[3])))
                 return S if kind == "size" else A
             raise _NoOffsetModel("layout of " + expr_str(l_)[:40])
         m = re.search(r"core::num::<impl usize>::(wrapping|saturating)_(add|sub|mul)$", nm)
@@ -509,6 +538,7 @@ def offset_is_padded_header_size(ctx, b, off):
     offset `Layout::extend` uses when LAYOUT sizes the block: decided by evaluating the expression for every header size
     0..=96 and every power-of-two alignment up to 128.  -> (ok | None when the expression is outside the model, detail)"""
     off = strip_refs(off)
+    _OFFSET_CTX[0] = ctx
     if off[0] == "const" and len(off) > 3 and off[3] in ctx.facts.bodies:
         cb = ctx.facts.bodies[off[3]]
         b, off = cb, strip_refs(ctx.flow(cb).local_expr(0))
@@ -779,6 +809,8 @@ def r3_8(ctx, R):
                 src = "loop index of a Range"
             elif any(c in pops for c in calls) or any(d.path in calls for d in R.drain_fns):
                 src = "index delivered by POP/DRAIN"
+            elif R.is_mark_all(callee_body(ctx.facts, fn)):
+                src = "MARK-ALL: every index below the list's own recorded length"
             ctx.ob("R3.8", b, "mark-index-source@%s" % _site_label(b, bb), src is not None, b.loc(bb), "%s: %s" % (src, expr_str(idx)))
 
 
